@@ -38,7 +38,7 @@ def build(entries):
             if e.get("mac") is not None:
                 # MacLHA member: OS 'm', stored; with an envelope the visible content is the data fork (or the resource fork)
                 if e["mac"]:
-                    body = macbinary_wrap(name, plain if e["mac"] != "res" else b"", b"R" * e.get("resfork", 40) if e["mac"] != "data" else b"", e["mtime"])
+                    body = macbinary_wrap(name, plain if e["mac"] != "res" else b"", b"R" * e.get("resfork", 40) if e["mac"] != "data" else b"", e["mtime"] + e.get("mactz", 0))
                 else:
                     body = plain
                 out += entry("f", path, name, data=body, level=level, mtime=e["mtime"], os_=ord("m"), unix=False)
@@ -179,7 +179,7 @@ def describe(space, case):
     return "C06 %s cmd=%s uid=%s%s%s [%s] pre=%s answers=%r filters=%s" % (space, case["cmd"], case.get("uid", 0), " umask=%o" % case["umask"] if case.get("umask") is not None else "", " nofile=%d" % case["nofile"] if case.get("nofile") else "", ents, [p[0] for p in case.get("pre", [])], case.get("answers", ""), case.get("filters", []))
 
 
-def compare(tree_model, loose, actual, viol, site_prefix="c06"):
+def compare(tree_model, loose, actual, viol, site_prefix="c06", mask=0o777):
     for rel, node in tree_model.items():
         key = rel.encode("latin1")
         a = actual.get(key)
@@ -197,8 +197,8 @@ def compare(tree_model, loose, actual, viol, site_prefix="c06"):
                 viol.append((site_prefix + "-content", "%s has %r bytes, the archive says %d bytes (or content differs)" % (rel, None if a[3] is None else len(a[3]), len(node["data"]))))
             if node.get("mtime") and a[2] != node["mtime"] and not node.get("pre"):
                 viol.append((site_prefix + "-file-mtime", "%s mtime %d, recorded %d" % (rel, a[2], node["mtime"])))
-            if node.get("mode") is not None and (a[1] & 0o777) != (node["mode"] & 0o777):
-                viol.append((site_prefix + "-file-mode", "%s mode %o, recorded %o" % (rel, a[1] & 0o777, node["mode"] & 0o777)))
+            if node.get("mode") is not None and (a[1] & mask) != (node["mode"] & mask):
+                viol.append((site_prefix + "-file-mode", "%s mode %o, recorded %o" % (rel, a[1] & mask, node["mode"] & mask)))
         elif kind == "l":
             if not node.get("dangerous") and a[3] != node["data"]:
                 viol.append((site_prefix + "-link-target", "%s -> %r, recorded %r" % (rel, a[3], node["data"])))
@@ -256,7 +256,7 @@ def run_case(runner, space, case):
             if node.get("implicit"):
                 node["mode"] = None
     r = runner.run(arc, [cmd, "../archive.lzh"] + filters, stdin=stdin, pre=pre, uid=case.get("uid", 0), umask=case.get("umask"), nofile=case.get("nofile"))
-    compare(tree, loose, r.tree, viol)
+    compare(tree, loose, r.tree, viol, mask=0o7777 if case.get("fullmode") else 0o777)
     # a dangerous link that lands in a directory whose recorded permissions forbid writing cannot be created at the end: outside the guarantee
     ro_dirs = [e["path"] for e in sel if e["k"] == "d" and not (e.get("perms", 0o755) & 0o200)]
     excused = any(e["k"] == "l" and dangerous(e["target"]) and any(e["path"].startswith(d) for d in ro_dirs) for e in sel) and case.get("uid")
